@@ -60,6 +60,10 @@ def ref_line(tx, kw, exc, sect, w2f):
                      ['1' if sect else '0', '1' if w2f else '0'])
 
 
+# position of the record list in a `cvb` protocol line (['S', 'cvb'] + 7 transcript fields + limit + flag)
+CVB_VARS_AT = 11
+
+
 def fusion_backbone(out, desc, anno, genome, pool, donor, acc, tdicts, kw, canon, idmap, exc, lines):
     """fills out['cvb'] / out['canon'] (+ the donor 'ref' line) for the ONE fusion donor -> acc;
     returns False when the case cannot be evaluated"""
@@ -86,16 +90,63 @@ def fusion_backbone(out, desc, anno, genome, pool, donor, acc, tdicts, kw, canon
     rins = ags[int(ris):int(rie)] if ris is not None else ''
     if lins or rins:
         out['stats']['intronic_breakpoint'] = 1
+        desc.update(left_insertion=[int(lis), int(lie)] if lis is not None else None,
+                    right_insertion=[int(ris), int(rie)] if ris is not None else None)
     abp = anno.coordinate_gene_to_transcript(fz.get_accepter_position(), am.transcript.gene_id, acc)
     back = dd['seq'][:bp] + lins + rins + str(aseq.seq)[abp:]
     shift = bp + len(lins) + len(rins) - abp
     bvars = [v for v in dd['vars'] if v[1] < bp]
+    # small records INSIDE a retained intronic stretch (gene coordinates of the donor / accepter gene,
+    # strand-aware like the stretch itself): gene position g of the left stretch is backbone position
+    # bp + (g - LEFT_INSERTION_START), of the right stretch bp + |left| + (g - RIGHT_INSERTION_START).
+    # The command applies a record there when it lies strictly inside the stretch (first and last base
+    # of the stretch excluded: filter_variants, start > lo and end < hi); the generator keeps 2 nt away
+    # from both ends; an input with a record nearer to / across an end is counted and NOT judged.
+    n_in = n_fs = 0
+    fs_ids = {'left': [], 'right': []}
+    for side, tx_id, lo, hi, off in (('left', donor, lis, lie, bp), ('right', acc, ris, rie, bp + len(lins))):
+        if lo is None or tx_id not in pool.data:
+            continue
+        lo, hi = int(lo), int(hi)
+        for w in pool[tx_id].intronic:
+            a, b = int(w.location.start), int(w.location.end)
+            if b <= lo or hi <= a:
+                continue
+            if w.type not in ('SNV', 'INDEL', 'RNAEditingSite'):
+                out['stats']['unsupported_type'] = 1
+                return False
+            if not (lo < a and b < hi):
+                out['stats']['record_on_edge_of_retained_stretch'] = 1
+                return False
+            bvars.append((off + a - lo, off + b - lo, str(w.ref), str(w.alt), w.type, w.id))
+            n_in += 1
+            if (len(str(w.alt)) - len(str(w.ref))) % 3:
+                n_fs += 1
+                fs_ids[side].append(w.id)
+    if n_in:
+        out['stats']['with_records_in_retained_stretch'] = 1
+        out['stats']['records_in_retained_stretch'] = n_in
+        out['stats']['frameshifting_in_retained_stretch'] = n_fs
+        desc.update(retained_stretch_records=n_in, retained_stretch_frameshifts=n_fs)
     if acc in pool.data:
         agsq = ags
         for v in pool[acc].transcriptional:
             av = as_var(v, aseq, agsq)
             if av[0] > abp:
                 bvars.append((av[0] + shift, av[1] + shift, av[2], av[3], av[4], av[5]))
+    # structural signature of the open finding frameshifts-in-both-retained-stretches-of-fusion: a
+    # frameshifting record in the LEFT stretch and a frameshifting record in the RIGHT stretch
+    # (`behind`: the records at or behind the first of the latter)
+    if fs_ids['left'] and fs_ids['right']:
+        first_r = min(v[0] for v in bvars if v[5] in fs_ids['right'])
+        out['stats']['frameshifts_in_both_retained_stretches'] = 1
+        out['both_fs'] = {
+            'left_fs': list(fs_ids['left']), 'right_fs': list(fs_ids['right']),
+            'behind': [v[5] for v in bvars if v[0] >= first_r],
+            'vf_no_left_fs': var_field([v for v in bvars if v[5] not in fs_ids['left']], idmap),
+            'vf_no_right_fs': var_field([v for v in bvars if v[5] not in fs_ids['right']], idmap)}
+        desc.update(frameshifts_in_both_retained_stretches={k: out['both_fs'][k]
+                                                            for k in ('left_fs', 'right_fs', 'behind')})
     if any(v[4] in ('Insertion', 'Deletion', 'Substitution') for v in bvars):
         out['stats']['as_with_fusion'] = 1
         return False
@@ -109,12 +160,105 @@ def fusion_backbone(out, desc, anno, genome, pool, donor, acc, tdicts, kw, canon
                                       kw['w2f_reassignment'])))
         out['cvb'] = ['S', 'cvb'] + tx_fields(btx) + [lim, '1', vf] + cleave_fields(kw, exc) + \
             ['0', '1' if kw['w2f_reassignment'] else '0']
+        assert out['cvb'][CVB_VARS_AT] == vf
         out['canon'] = ','.join(sorted(canon))
     return True
 
 
+def retained_stretch_records(out, anno, genome, rng, fus, donor, acc, recs):
+    """fusions with an INTRONIC donor / accepter breakpoint keep the intronic stretch between the exon
+    and the breakpoint (LEFT_INSERTION_* / RIGHT_INSERTION_*), and small records inside it are applied
+    there.  70 % of the fusions get their breakpoint(s) moved into an intron, 8-45 nt from the exon (a
+    SHORT stretch: the donor frame usually reads through it); an input with a retained stretch gets,
+    with probability 0.6, 1-3 SNV / insertion / deletion records INSIDE the stretch (>= 2 nt from both
+    of its ends, mostly close to the accepter side so that a shifted frame reaches the accepter), and in
+    half of those cases one more record on the accepter right behind the breakpoint.  Appends to `recs`,
+    returns the fusion record to use."""
+    st = out['stats']
+    if rng.random() < 0.7:
+        side = rng.choice(['donor', 'donor', 'donor', 'acc', 'both'])
+        try:
+            # the other side stays as moPepGen.fake drew it when its breakpoint is exonic or its
+            # retained stretch is short as well; a long stretch there is shortened too
+            l0, l1, r0, r1, _a = gen_ref.fusion_insertions(anno, fus)
+            f2 = gen_ref.intronic_fusion(
+                anno, genome, fus, rng,
+                side in ('donor', 'both') or (l0 is not None and int(l1) - int(l0) > 45),
+                side in ('acc', 'both') or (r0 is not None and int(r1) - int(r0) > 45))
+        except Exception:   # noqa
+            f2 = None
+        if f2 is not None:
+            fus = f2
+            st['short_retained_stretch'] = 1
+    try:
+        lis, lie, ris, rie, apos = gen_ref.fusion_insertions(anno, fus)
+    except Exception:   # noqa
+        return fus
+    if lis is not None:
+        st['intronic_donor_breakpoint'] = 1
+    if ris is not None:
+        st['intronic_accepter_breakpoint'] = 1
+    ranges = []
+    if lis is not None:
+        ranges.append((donor, int(lis), int(lie)))
+    if ris is not None:
+        ranges.append((acc, int(ris), int(rie)))
+    if not ranges or rng.random() >= 0.6:
+        return fus
+    seen = {r.id for r in recs}
+    share = [0] * len(ranges)
+    for _ in range(rng.randint(1, 3)):
+        share[rng.randrange(len(ranges))] += 1
+    n_new, new = 0, []
+    for (tx, lo, hi), n in zip(ranges, share):
+        if not n:
+            continue
+        tail = rng.choice([8, 8, 12, 16, 24, None])
+        for rec in gen_ref.stretch_variants(anno, genome, tx, lo, hi, rng, n, margin=2, tail=tail):
+            if rec.id not in seen:
+                seen.add(rec.id)
+                recs.append(rec)
+                new.append(rec)
+                n_new += 1
+    if not n_new:
+        return fus
+    st['gen_inputs_with_records_in_retained_stretch'] = 1
+    st['gen_records_in_retained_stretch'] = n_new
+    if any(anno.transcripts[r.attrs['TRANSCRIPT_ID']].transcript.strand == -1 for r in new):
+        st['gen_stretch_records_on_minus_strand_gene'] = 1
+    if rng.random() < 0.5:
+        # a record on the accepter right behind the breakpoint: its peptides need the fusion, and
+        # - read in a shifted frame - the frameshifting record of the stretch as well (one is added
+        # to the stretch next to the accepter when none of the records drawn above shifts the frame)
+        if not any((len(r.alt) - len(r.ref)) % 3 for r in new) and len(new) < 3:
+            tx, lo, hi = ranges[-1]
+            for rec in gen_ref.stretch_variants(
+                    anno, genome, tx, lo, hi, rng, 1, margin=2, tail=rng.choice([8, 12, 16]),
+                    kinds=('INS', 'DEL'), sizes=(1, 2),
+                    used=[(int(r.location.start), int(r.location.end)) for r in new
+                          if r.attrs['TRANSCRIPT_ID'] == tx]):
+                if rec.id not in seen:
+                    seen.add(rec.id)
+                    recs.append(rec)
+                    new.append(rec)
+                    n_new += 1
+            st['gen_records_in_retained_stretch'] = n_new
+        try:
+            agid = anno.transcripts[acc].transcript.gene_id
+            abp = anno.coordinate_gene_to_transcript(int(apos), agid, acc)
+            rec = gen_ref.small_variant(anno, genome, acc, abp + rng.randint(1, 9),
+                                        rng.choice(['SNV', 'SNV', 'INS', 'DEL']), rng.randint(1, 3), rng)
+        except Exception:   # noqa
+            rec = None
+        if rec is not None and rec.id not in seen:
+            recs.append(rec)
+            st['gen_accepter_record_behind_breakpoint'] = 1
+    return fus
+
+
 def fusion_worker(job):
-    """two genes, small records on both, ONE fusion donor -> acceptor"""
+    """two genes, small records on both, ONE fusion donor -> acceptor (+ records inside the intronic
+    stretch a fusion with an intronic breakpoint retains, see `retained_stretch_records`)"""
     seed, tier, opts = job
     rng = random.Random(seed)
     out = {'stats': {}, 'seed': seed}
@@ -149,12 +293,14 @@ def fusion_worker(job):
             if fus is None:
                 out['stats']['no_fusion'] = 1
                 return out
+            fus = retained_stretch_records(out, anno, genome, rng, fus, donor, acc, recs)
             recs.append(fus)
             gen_ref.write_gvfs(case, recs)
         kw = cv_explore.default_kw(rng, True, opts.get('exception'))
         canon = pipe.model_canonical_pool(case, **kw)
         run = gen_ref.run_call_variant(case, tag='cv', **kw)
-        desc = {'seed': seed, 'kw': kw, 'donor': donor, 'acceptor': acc, 'fusion': fus.id}
+        desc = {'seed': seed, 'kw': kw, 'donor': donor, 'acceptor': acc, 'fusion': fus.id,
+                'records': [r.id for r in recs if r is not fus]}
         out['desc'] = desc
         if run.status != 'ok':
             out['stats']['crash'] = 1
